@@ -112,7 +112,8 @@ def run_case(case, workdir):
     d, interior = chkmodel.write_checkpoint(desc, chk)
     dh = h64(desc)
     ns = d["nspecies"]
-    species = ["H2", "O2", "N2"][:ns]
+    # (names with nested parentheses are real: CH2(S) is in DRM19 and in the repository's own example plotfile)
+    species = (["CH2(S)", "O2", "C(S)"] if (d.get("ghost", 1) + ns) % 2 else ["H2", "O2", "N2"])[:ns]
     ref_plt = None
     if case["source"] != "list":
         pre = "Y" if case["source"] == "ref_Y" else "I_R"
